@@ -76,7 +76,10 @@ theorem step?_self {s s' : St} {tr : Tr} {q : Nat} {ts : Tp} (hI : Inv s) (hs : 
   | dec t =>
     simp only [step?] at hs; split at hs
     · split at hs
-      · rename_i p hbt _ _ tp htp; cases hs
+      · rename_i p hbt _ _ tp htp
+        split at hs
+        case isFalse => cases hs
+        cases hs
         by_cases hpq : p = q
         · subst hpq; rw [hts] at htp; cases htp
           obtain ⟨x, hx, hxs, _⟩ := hI.cbFwd t p hbt
@@ -161,10 +164,10 @@ theorem step?_self {s s' : St} {tr : Tr} {q : Nat} {ts : Tp} (hI : Inv s) (hs : 
   | nestDec t =>
     simp only [step?] at hs; split at hs
     · split at hs
-      · rename_i p hsu _ tp htp; cases hs
+      · rename_i p rest _ hsu _ tp htp; cases hs
         by_cases hpq : p = q
         · subst hpq; rw [hts] at htp; cases htp
-          obtain ⟨x, hx, hxs, _⟩ := hI.nFwd t p hsu
+          obtain ⟨x, hx, hxs, _⟩ := hI.nFwd t _ p hsu List.mem_cons_self
           rw [hts] at hx; cases hx
           exact ⟨_, List.getElem?_set_self hql, h0, he, rfl, rfl, rfl, Or.inr (Or.inr (Or.inr (Or.inr rfl))), Or.inr (Or.inr (Or.inr ⟨hxs, rfl⟩))⟩
         · exact other p _ hpq
